@@ -279,6 +279,7 @@ def run(check, an: Analysis):
     # (no conversion that would put later dates on another number grid)
     c01.check_clock_writers(check, an, 'A')
     c01.check_schedule_keys(check, an, 'A')
+    c01.check_exact_arithmetic(check, an, 'A')
     handler_cls = an.cls(c15.HANDLER)
     check.instance('P', 'StateHandler:threading.local',
                    'ext:threading.local' in handler_cls.mro,
